@@ -277,3 +277,57 @@ def write_json(path: str, obj: Any):
 
 def log(*a):
     print(*a, file=sys.stderr, flush=True)
+
+
+# ---------------------------------------------------------------- size thresholds mined from the source
+def mined_sizes(files: List[str], lo: int = 16, hi: int = 4_000_000, names: Optional[List[str]] = None) -> List[int]:
+    """Integer constants of the CURRENT source of `files` (paths relative to the repository root): literals and constant expressions built from
+    literals with + - * // ** << (e.g. `1 << 16`, `4096 * 4`, `2**20`), optionally restricted to the functions / classes in `names`.  Block,
+    chunk, buffer and cache sizes are where "for every record length / request size / segment count" breaks (wave-5 changes C16e: blocks of
+    2**16 samples, C17e: blocks of 2**20, C11d: chunks of 32768 segments), and the constant is in the source, so the failing-input search reads
+    it from there: oracles probe sizes just below, at and above every mined constant.  On the unchanged tree this yields the library's own
+    thresholds (4096-sample buffer, NumPy chunk sizes, 1000-segment CUDA heuristic …)."""
+    import ast
+
+    def const(node) -> Optional[int]:
+        if isinstance(node, ast.Constant) and isinstance(node.value, int) and not isinstance(node.value, bool):
+            return int(node.value)
+        if isinstance(node, ast.UnaryOp) and isinstance(node.op, ast.USub):
+            v = const(node.operand)
+            return -v if v is not None else None
+        if isinstance(node, ast.BinOp):
+            a, b = const(node.left), const(node.right)
+            if a is None or b is None:
+                return None
+            try:
+                if isinstance(node.op, ast.Add):
+                    return a + b
+                if isinstance(node.op, ast.Sub):
+                    return a - b
+                if isinstance(node.op, ast.Mult):
+                    return a * b
+                if isinstance(node.op, ast.FloorDiv) and b != 0:
+                    return a // b
+                if isinstance(node.op, ast.Pow) and 0 <= b <= 64 and abs(a) <= 1024:
+                    return a ** b
+                if isinstance(node.op, ast.LShift) and 0 <= b <= 40:
+                    return a << b
+            except Exception:
+                return None
+        return None
+
+    out = set()
+    for rel in files:
+        try:
+            tree = ast.parse(open(os.path.join(REPO, rel)).read())
+        except Exception:
+            continue
+        roots = [tree]
+        if names:
+            roots = [n for n in ast.walk(tree) if isinstance(n, (ast.FunctionDef, ast.ClassDef)) and n.name in names] or [tree]
+        for root in roots:
+            for n in ast.walk(root):
+                v = const(n)
+                if v is not None and lo <= v <= hi:
+                    out.add(v)
+    return sorted(out)
